@@ -1643,13 +1643,17 @@ fn walk_positions(rng: &mut Rng, corpus: &[(String, Pos)], count: usize, max_pie
 /// C10: count_positions at several depths, pool sizes, fresh and used generators
 fn perfts(e: &mut Exec, rng: &mut Rng, kv: &Args, positions: &[(String, Pos)]) {
     let maxd = kv.num("depth", 2) as u8;
-    let pools = [1usize, 2, 4, 16];
+    let pools = [1usize, 2, 3, 4, 5, 6, 7, 8, 16];
     for (name, p) in positions {
         e.line(&format!("# perft position {}", name));
         e.exec(&format!("pos {}", p.line()));
         for d in 0..=maxd {
             let n = pools[rng.below(pools.len())];
             e.exec(&format!("perft {} {}", d, n));
+        }
+        // the split of the root moves over the workers: every small pool size at depth 1
+        for n in 1..=8usize {
+            e.exec(&format!("perft {} {}", 1.min(maxd), n));
         }
         // a generator that has been used before (other positions, this position)
         let n = pools[rng.below(pools.len())];
